@@ -16,11 +16,11 @@ LEVEL_TEXT = ('dry-run: the after-snapshot must equal the before-snapshot and th
               'run removes on an identical world; interactive: for every reply not starting with y/Y (incl. empty and end of input) the snapshot must be unchanged')
 LEVEL_NOTE = ('trusted: snapshot comparer; the dry-run line for the payload path of an info-without-payload entry is pinned by the repository\'s own test and treated as don\'t-care')
 RULE = ('contents: multisets (<=2, thorough <=3) over {old, recent, undated, garbage-date, info-without-payload, tree payload, symlink payload} + orphan payload x DAYS {none,0,1} x '
-        'flags {-, --trash-dir, -v, two volumes}; replies: all strings of length <=2 over {y,Y,n,N,e,s,space} + {"", EOF, yes, no, Yes, " y", nope, "yY", "\\ty"} x {-i, isatty=True} x DAYS {none, 1}; '
+        'flags {-, --trash-dir, -v, two volumes, --trash-dir LINK/../dir with a look-alike where a lexical collapse would point}; replies: all strings of length <=2 over {y,Y,n,N,e,s,space} + {"", EOF, yes, no, Yes, " y", nope, "yY", "\\ty"} x {-i, isatty=True} x DAYS {none, 1}, and 6 negative replies when only payloads without .trashinfo are left; '
         'non-trivial = something was eligible for removal; distinct = (part, DAYS, flags or reply class, outcome)')
 NOW = '2024-05-06T07:08:09'
 KINDS = ['old', 'recent', 'undated', 'garbage', 'nopayload', 'tree', 'link']
-FLAGS = ['-', 'trash-dir', '-v', 'twovol']
+FLAGS = ['-', 'trash-dir', '-v', 'twovol', 'trash-dir-dotdot']
 DAYS = [None, 0, 1]
 RALPHA = ['y', 'Y', 'n', 'N', 'e', 's', ' ']
 REXTRA = ['', None, 'yes', 'no', 'Yes', ' y', 'nope', 'yY', '\ty', 'Ýes', 'y\x00']
@@ -53,6 +53,10 @@ def cases(tier):
         for d in (None, 1):
             for rp in replies():
                 out.append({'part': 'ask', 'reply': rp, 'mode': mode, 'days': d})
+    # nothing but payloads without .trashinfo is left (they are purged too, so the question has to be asked)
+    for mode in ('-i', 'tty'):
+        for rp in ('n', '', None, 'no', ' y', 'N'):
+            out.append({'part': 'ask', 'reply': rp, 'mode': mode, 'days': None, 'ms': []})
     return out
 
 
@@ -78,6 +82,13 @@ def build(c):
         argv += ['--trash-dir', '/home/u/custom']
         scen.add_trash_dir(W, scen.HOME_TRASH)
         scen.add_trashed(W, scen.HOME_TRASH, 'untouched', '/home/u/w/untouched', '2000-01-01T00:00:00')
+    elif fl == 'trash-dir-dotdot':
+        # LINK/../custom : the kernel resolves LINK first (-> /mnt/v1/custom); a lexical collapse names /home/u/custom, a look-alike with the same content
+        tds = ['/mnt/v1/custom']
+        argv += ['--trash-dir', '/home/u/lk/../custom']
+        W.dir('/mnt/v1/sub').link('/home/u/lk', '/mnt/v1/sub')
+        scen.add_trash_dir(W, '/home/u/custom')
+        fill(W, '/home/u/custom', ms, rel=False)
     elif fl == 'twovol':
         tds = [scen.HOME_TRASH, '/mnt/v1/.Trash-0']
     elif fl == '-v':
@@ -97,6 +108,8 @@ def run_dry(c):
         before = sb.snapshot()
         rd = sb.run(argv + ['--dry-run'], now=NOW, cwd='/')
         after_dry = sb.snapshot()
+        printed = [ln[len('would remove '):] for ln in rd.out.split('\n') if ln.startswith('would remove ')]
+        canon = {p: d['entry'] for p, d in zip(printed, sb.denote(printed, cwd='/'))} if c['flags'] == 'trash-dir-dotdot' and printed else {}
     with cell.Sandbox(spec) as sb2:
         b2 = sb2.snapshot()
         rr = sb2.run(argv, now=NOW, cwd='/')
@@ -107,7 +120,7 @@ def run_dry(c):
     announced = set()
     for ln in rd.out.split('\n'):
         if ln.startswith('would remove '):
-            announced.add(ln[len('would remove '):])
+            announced.add(canon.get(ln[len('would remove '):]) or ln[len('would remove '):])          # (the entry the printed path names for the kernel)
     removed_top = set()
     for p in b2:
         if p not in after_real:
@@ -129,7 +142,7 @@ def run_dry(c):
 
 
 def run_ask(c):
-    W, argv, tds = build({'days': c['days'], 'flags': 'trash-dir' if c['mode'] == '-i+trash-dir' else '-'})
+    W, argv, tds = build(dict({'days': c['days'], 'flags': 'trash-dir' if c['mode'] == '-i+trash-dir' else '-'}, **({'ms': c['ms']} if 'ms' in c else {})))
     plan = {}
     if c['mode'] in ('-i', '-i+trash-dir'):
         argv.append('-i')
